@@ -1,5 +1,7 @@
 import SeqVerif.Model.ParserTok
 import SeqVerif.Model.SeqQLFilterLemmas
+import SeqVerif.Model.LegacyParserLemmas
+import SeqVerif.Model.SeqQLLexerLemmas
 import SeqVerif.Extracted.C12
 /-!
 # C12 - query parsing is total and preserves the boolean meaning of the query
@@ -314,6 +316,80 @@ theorem c12_in_is_disjunction (dp cs : Bool) (field : List Nat) (t : FT) (toks r
       ∀ env, a.eval env = (first.eval env || items.any fun x => x.eval env) :=
   (filterIn_ok h).2.2
 
+/-! ## the SeqQL lexer and `ParseSeqQL` on strings (character level)
+
+`SV.Parser.lexNext` is `lexer.Next()` (spaces, `#` comments, token runs, `*`, the three quote kinds with
+`unquotePrefix` / `unquoteChar`, single symbols, invalid UTF-8) over the runes of the query; oracles are Go's `unicode`
+predicates and `strconv.UnquoteChar` (consuming at least one rune on success). -/
+
+/-- **The lexer never loops and never panics**: every `Next()` on a non-empty rest of the query consumes at least one
+rune; calling it until `IsEnd()` terminates with at most one token per rune. -/
+theorem c12_lexer_terminates (q : List QRn) :
+    (∀ sp tok rest, lexNext (q.length + 1) sp q = .ok (tok, rest) → q ≠ [] → rest.length < q.length) ∧
+    lexAll (q.length + 1) q ≠ .oof ∧ lexAll (q.length + 1) q ≠ .panic ∧
+    ∀ ts, lexAll (q.length + 1) q = .ok ts → ts.length ≤ q.length :=
+  ⟨fun sp tok rest h hq => ((lexNext_spec (q.length + 1) sp q (Nat.le_refl _)).2.2 tok rest h).2 hq,
+   (lexAll_spec (q.length + 1) q (Nat.le_refl _)).1, (lexAll_spec (q.length + 1) q (Nat.le_refl _)).2.1,
+   (lexAll_spec (q.length + 1) q (Nat.le_refl _)).2.2⟩
+
+/-- **C12 totality of `ParseSeqQL` on strings**: for every query (any runes, any answers of the `unicode`, `strconv`
+and `EqualFold` oracles), every mapping, either case setting and any nesting limit: lexer, parser and NOT propagation
+together return a query or an error - no panic, no loop. -/
+theorem c12_total_seqql_runes (kwOf : List Rn → KW) (cs : Bool) (mapping : Option (List (List Nat × FT))) (mx : Option Nat)
+    (q : List QRn) :
+    parseSeqQLRunes kwOf ⟨false, cs, mapping⟩ mx q ≠ .panic ∧ parseSeqQLRunes kwOf ⟨false, cs, mapping⟩ mx q ≠ .oof := by
+  have hl := lexAll_spec (q.length + 1) q (Nat.le_refl _)
+  unfold parseSeqQLRunes
+  exact ⟨PRes.bind_ne_panic' hl.2.1 (fun _ _ => (c12_total_lexer_tokens cs mapping mx _).1),
+    PRes.bind_ne_oof hl.1 (fun _ _ => (c12_total_lexer_tokens cs mapping mx _).2)⟩
+
+/-! ## the whole legacy parser at rune level (level B)
+
+`SV.Parser.parseQueryRunes` (Model/LegacyParser.lean) is `ParseQuery` on `[]rune(query)`: `parseExpr` / `parseSubexpr`
+reading operator words with `parseSimpleTerm`, `parseTokenQuery`, `parseLiteral`, `parseRange`, `parseTerms`,
+`parseQuotedTerms`, the three term builders and `propagateNot`.  `tp.cur()` past the end of the input is a panic of
+the model; the theorem shows it is unreachable. -/
+
+/-- **Totality of `ParseQuery`**: for every rune sequence (any code points with any answers of Go's `unicode`
+predicates), every mapping, either case setting and any nesting limit the legacy parser returns a query or an error:
+`tp.cur()` is never evaluated at the end of the input (`errorUnexpectedSymbol` included), `panic("quote not found")`,
+`panic("range start not found")` and `tokens[0]` of an empty slice are unreachable, the type switch returns an error,
+and all loops and recursions terminate. -/
+theorem c12_total_legacy_runes (cs : Bool) (mapping : Option (List (List Nat × FT))) (mx : Option Nat) (rs : List Rn) :
+    parseQueryRunes ⟨false, cs, mapping⟩ mx rs ≠ .panic ∧ parseQueryRunes ⟨false, cs, mapping⟩ mx rs ≠ .oof := by
+  have hl := skipSpaces_len rs
+  have := ((lgr_spec ⟨false, cs, mapping⟩ rfl mx (2 * rs.length + 2)).2.1 (skipSpaces rs) 0 0 (skipSpaces_noLead rs) (by omega))
+  unfold parseQueryRunes
+  exact ⟨PRes.bind_ne_panic' this.2.1 (fun _ _ => by simp), PRes.bind_ne_oof this.1 (fun _ _ => by simp)⟩
+
+/-- ... at the switch default and the nesting limit read from the source on this run -/
+theorem c12_total_legacy_runes_extracted (cs : Bool) (mapping : Option (List (List Nat × FT))) (rs : List Rn) :
+    parseQueryRunes ⟨SV.Extracted.C12.legacyDefaultPanics, cs, mapping⟩ SV.Extracted.C12.legacyMaxNest rs ≠ .panic ∧
+    parseQueryRunes ⟨SV.Extracted.C12.legacyDefaultPanics, cs, mapping⟩ SV.Extracted.C12.legacyMaxNest rs ≠ .oof := by
+  have hL : SV.Extracted.C12.legacyDefaultPanics = false := by decide
+  rw [hL]
+  exact c12_total_legacy_runes cs mapping _ rs
+
+/-- `ParseAggregationFilter` is total as well -/
+theorem c12_total_agg_filter (cs : Bool) (rs : List Rn) :
+    parseAggFilter false cs rs ≠ .panic ∧ parseAggFilter false cs rs ≠ .oof := by
+  unfold parseAggFilter
+  have hnl := skipSpaces_noLead rs
+  cases hs : skipSpaces rs with
+  | nil => simp
+  | cons r rest =>
+    simp only
+    rw [hs] at hnl
+    have hr : r.space = false := hnl r rest rfl
+    split
+    · rename_i hempty
+      have : (simpleTerm (r :: rest)).1 = [] := by simpa using hempty
+      rw [simpleTerm_empty_word hr this, errUnexpected_cons]; simp
+    · have hq := legacyTokenQuery_spec cs (wordBytes (simpleTerm (r :: rest)).1) .keyword (simpleTerm (r :: rest)).2
+      refine ⟨PRes.bind_ne_panic' hq.2.1 ?_, PRes.bind_ne_oof hq.1 ?_⟩
+      · intro b _; split <;> simp
+      · intro b _; split <;> simp
+
 /-! ## Obligations on facts re-extracted from /repo on every run -/
 
 open SV.Extracted.C12
@@ -414,19 +490,34 @@ example : sqParse (tokSeqQL false none (fun _ => .keyword)) [.lp, .atom 0 0 .pla
 /-- level B: `ft:"ab cd"` on a text field (one quoted token) is the conjunction of two literals -/
 example :
     fulltextFilter false [102, 116] .text true
-      [⟨[⟨[97], 97, true, false, false, 97⟩, ⟨[98], 98, true, false, false, 98⟩, ⟨[32], 32, false, false, false, 32⟩,
-         ⟨[99], 99, true, false, false, 99⟩, ⟨[100], 100, true, false, false, 100⟩], true, false, .none⟩]
+      [⟨[⟨[97], 97, true, false, false, 97, false⟩, ⟨[98], 98, true, false, false, 98, false⟩, ⟨[32], 32, false, false, false, 32, true⟩,
+         ⟨[99], 99, true, false, false, 99, false⟩, ⟨[100], 100, true, false, false, 100, false⟩], true, false, .none⟩]
     = .ok (.bin .and (.leaf (.lit [102, 116] [⟨false, [97, 98]⟩])) (.leaf (.lit [102, 116] [⟨false, [99, 100]⟩])), []) := by decide
 
 /-- level B: `f : in ( a , b )` with the nil mapping parses to `f:a or f:b` -/
 example :
-    let a : LTok := ⟨[⟨[97], 97, true, false, false, 97⟩], false, false, .none⟩
-    let b : LTok := ⟨[⟨[98], 98, true, false, false, 98⟩], false, true, .none⟩
-    let f : LTok := ⟨[⟨[102], 102, true, false, false, 102⟩], false, false, .none⟩
-    let kwt (k : KW) (c : Nat) : LTok := ⟨[⟨[c], c, false, false, false, c⟩], false, false, k⟩
-    parseSeqQL ⟨false, true, none⟩ (some 1000) [f, kwt .colon 58, ⟨[⟨[105], 105, true, false, false, 105⟩, ⟨[110], 110, true, false, false, 110⟩], false, false, .in_⟩,
+    let a : LTok := ⟨[⟨[97], 97, true, false, false, 97, false⟩], false, false, .none⟩
+    let b : LTok := ⟨[⟨[98], 98, true, false, false, 98, false⟩], false, true, .none⟩
+    let f : LTok := ⟨[⟨[102], 102, true, false, false, 102, false⟩], false, false, .none⟩
+    let kwt (k : KW) (c : Nat) : LTok := ⟨[⟨[c], c, false, false, false, c, false⟩], false, false, k⟩
+    parseSeqQL ⟨false, true, none⟩ (some 1000) [f, kwt .colon 58, ⟨[⟨[105], 105, true, false, false, 105, false⟩, ⟨[110], 110, true, false, false, 110, false⟩], false, false, .in_⟩,
       kwt .lp 40, a, kwt .comma 44, b, kwt .rp 41]
     = .ok (.bin .or (.leaf (.lit [102] [⟨false, [97]⟩])) (.leaf (.lit [102] [⟨false, [98]⟩])), []) := by decide
+
+/-- lexer: `a "b c"` gives the token `a` and the quoted token `b c` with the space flag -/
+example :
+    let r (c : Nat) (l sp : Bool) : QRn := ⟨⟨[c], c, l, false, false, c, sp⟩, none, none⟩
+    lexAll 8 [r 97 true false, r 32 false true, r 34 false false, r 98 true false, r 32 false true, r 99 true false, r 34 false false]
+    = .ok [⟨[⟨[97], 97, true, false, false, 97, false⟩], false, false, false⟩,
+           ⟨[⟨[98], 98, true, false, false, 98, false⟩, ⟨[32], 32, false, false, false, 32, true⟩, ⟨[99], 99, true, false, false, 99, false⟩], true, true, false⟩] := by
+  decide
+
+/-- legacy rune level: `a:b` (nil mapping) parses to the literal `a:b`; `a:` ends in an error, not in `tp.cur()` past the end -/
+example : parseQueryRunes ⟨false, true, none⟩ (some 1000)
+    [⟨[97], 97, true, false, false, 97, false⟩, ⟨[58], 58, false, false, false, 58, false⟩, ⟨[98], 98, true, false, false, 98, false⟩]
+    = .ok (.leaf (.lit [97] [⟨false, [98]⟩])) := by decide
+example : parseQueryRunes ⟨false, true, none⟩ (some 1000)
+    [⟨[97], 97, true, false, false, 97, false⟩, ⟨[58], 58, false, false, false, 58, false⟩] = .err := by decide
 
 /-- the hypotheses of `c12_total_old_partial` are satisfiable -/
 example : ∀ fid : Nat, (FType.searchable ((fun (_ : Nat) => FType.text) fid)) = true ∨ (fun (_ : Nat) => FType.text) fid = FType.noop :=
